@@ -17,6 +17,8 @@
           | (for <words fail 0|1> <read-only variable 0|1> <n> <ncmd>…)
           | (case <subject fails 0|1> (<matches 0|1> <pattern fails 0|1> <b|f|c> <ncmd>…)…)
           | (async <ncmd>…)                      -- `{ …; } & wait`
+          | (forpos <ncmd>…)                     -- `for v do …; done`
+          | (p <ncmd>)                           -- the command, then the traps of caught signals (command boundary)
   The EXIT action is `0` (none), `1` (`probe 99`) or `(A <line>…)` (a script of its own).
   The seed only drives the harness's surface rendering.
 
@@ -70,6 +72,8 @@ mutual
       let items ← toCaseItems items
       pure (.caseC (se != 0) items)
     | .list (.atom "async" :: body) => (toNCmds body).map .async
+    | .list (.atom "forpos" :: body) => (toNCmds body).map .forPos
+    | .list [.atom "p", c] => (toNCmd c).map .polled
     | x => (toSimple x).map .simple
 
   partial def toNCmds : List Sx → Option (List NCmd)
@@ -111,6 +115,7 @@ def toNLine : Sx → Option NLine
     construct on the way is an exempt context" (`Layer.exempt`) -/
 partial def firstLeaf : NCmd → Bool → Option (Simple × Bool)
   | .simple c, ex => some (c, ex)
+  | .polled n, ex => firstLeaf n ex
   | .group (n :: _) r, ex => (match r with | .error _ => none | _ => firstLeaf n ex)
   | .call (n :: _), ex => firstLeaf n ex
   | .ifc (n :: _) _ _, _ => firstLeaf n true
